@@ -118,7 +118,7 @@ M = [
  ("N-10", [], [(AL, "\tset.Range(func(l logql.Label, v pcommon.Value) {\n", "\tset.Range(func(l logql.Label, v pcommon.Value) {\n\t\tif v.AsString() == \"\" {\n\t\t\t// Prometheus semantics: an empty label is no label.\n\t\t\treturn\n\t\t}\n")], "NEUTRAL: metric samples drop empty-valued labels consistently (key and reported set)"),
  ("N-11", [], [(D, "since = strconv.FormatInt(t.Unix(), 10)", "since = t.Truncate(time.Second).UTC().Format(time.RFC3339)"), (D, 'import (\n\t"context"', 'import (\n\t"context"\n\t"time"')], "NEUTRAL: since spelled as RFC 3339 of the truncated instant"),
  ("N-12", [], [(BD, '\t\tleft, err := build(expr.Left, sel, params)\n\t\tif err != nil {\n\t\t\treturn nil, err\n\t\t}\n\t\tdefer closeOnError(left)\n\n\t\tright, err := build(expr.Right, sel, params)\n\t\tif err != nil {\n\t\t\treturn nil, err\n\t\t}\n\t\tdefer closeOnError(right)\n', '\t\tvar (\n\t\t\tleft, right StepIterator\n\t\t\tlerr, rerr2 error\n\t\t\twg          sync.WaitGroup\n\t\t)\n\t\twg.Add(2)\n\t\tgo func() {\n\t\t\tdefer wg.Done()\n\t\t\tleft, lerr = build(expr.Left, sel, params)\n\t\t}()\n\t\tgo func() {\n\t\t\tdefer wg.Done()\n\t\t\tright, rerr2 = build(expr.Right, sel, params)\n\t\t}()\n\t\twg.Wait()\n\t\tif lerr != nil || rerr2 != nil {\n\t\t\tif left != nil {\n\t\t\t\t_ = left.Close()\n\t\t\t}\n\t\t\tif right != nil {\n\t\t\t\t_ = right.Close()\n\t\t\t}\n\t\t\tif lerr != nil {\n\t\t\t\treturn nil, lerr\n\t\t\t}\n\t\t\treturn nil, rerr2\n\t\t}\n\t\tdefer closeOnError(left)\n\t\tdefer closeOnError(right)\n'), (BD, 'import (\n\t"fmt"', 'import (\n\t"fmt"\n\t"sync"')], "NEUTRAL: the two operands of a binary operation are built concurrently (the TODO in build.go)"),
- ("N-13", [], [(ES, "\tentries int\n\tlimit   int\n}", "\tentries int\n\tlimit   int\n\n\tstart, end otelstorage.Timestamp\n}"), (ES, "\t\tts := record.Timestamp\n", "\t\tts := record.Timestamp\n\t\tif ts < i.start || ts > i.end {\n\t\t\t// The storage is asked for whole seconds: drop what lies outside the exact range.\n\t\t\tcontinue\n\t\t}\n"), (ES, "\t\tlimit:     params.Limit,\n\t}, nil", "\t\tlimit:     params.Limit,\n\t\tstart:     params.Start,\n\t\tend:       params.End,\n\t}, nil")], "NEUTRAL: the engine filters entries to the exact [start, end] of the selection"),
+ ("N-13", [], [(ES, "\tentries int\n\tlimit   int\n}", "\tentries int\n\tlimit   int\n\n\tstart, end otelstorage.Timestamp\n}"), (ES, "\t\tts := record.Timestamp\n", "\t\tts := record.Timestamp\n\t\tif int64(ts) < int64(i.start) || int64(ts) > int64(i.end) {\n\t\t\t// The storage is asked for whole seconds: drop what lies outside the exact range\n\t\t\t// (signed comparison: a window may begin before 1970).\n\t\t\tcontinue\n\t\t}\n"), (ES, "\t\tlimit:     params.Limit,\n\t}, nil", "\t\tlimit:     params.Limit,\n\t\tstart:     params.Start,\n\t\tend:       params.End,\n\t}, nil")], "NEUTRAL: the engine filters entries to the exact [start, end] of the selection"),
  ("N-14", [], [(ES, "func (e *Engine) evalLogExpr(ctx context.Context, expr *logql.LogExpr, params EvalParams) (s lokiapi.Streams, _ error) {", "func (e *Engine) evalLogExpr(ctx context.Context, expr *logql.LogExpr, params EvalParams) (s lokiapi.Streams, rerr error) {"), (ES, "\tdefer func() {\n\t\t_ = iter.Close()\n\t}()\n\treturn groupEntries(iter)", "\tdefer func() {\n\t\tif cerr := iter.Close(); cerr != nil && rerr == nil {\n\t\t\trerr = errors.Wrap(cerr, \"close\")\n\t\t}\n\t}()\n\treturn groupEntries(iter)")], "NEUTRAL: a failing Close of the log readers is reported as the query's error"),
  ("N-1", [], [(MI, "return a.record.Timestamp < b.record.Timestamp", "return a.record.Timestamp <= b.record.Timestamp")], "NEUTRAL? heap Less with <= (changes tie order deterministically)"),
  ("N-2", [], [(D, "\t\tvar grp errgroup.Group\n", "\t\tvar grp errgroup.Group\n\t\tgrp.SetLimit(2)\n")], "NEUTRAL: errgroup limit 2"),
